@@ -40,47 +40,55 @@ open Proofs.C11sem in
 /-- **the `<` rewrite of `symmetry` is a strong equivalence** whenever the rest of the rule is symmetric in the two
 compared variables (`Proofs/C11sem.lean`; renaming lemma in `Sem/Rename.lean`): same here-and-there models, hence the
 same stable models whatever statements (in particular: whatever facts) are added -/
-theorem C11_neq_to_lt_strongeq (P : Sem.PParams) (pre post : Prog) (l c : Nat) (X Y : String) (h : Head) (b : List BLit)
-    (hs : Symmetric P X Y h b) :
+theorem C11_neq_to_lt_strongeq (P : Sem.PParams) (σ : String → String) (pre post : Prog) (l c : Nat) (X Y : String)
+    (h : Head) (b : List BLit) (hs : Symmetric P σ X Y h b) :
     Sem.StrongEq P (pre ++ .rule l c h (b ++ [cmpBLit X .ne Y]) :: post)
       (pre ++ .rule l c h (b ++ [cmpBLit X .lt Y]) :: post) :=
-  neq_to_lt_strongEq P pre post l c X Y h b hs
+  neq_to_lt_strongEq P σ pre post l c X Y h b hs
 
 open Proofs.C11sem in
-theorem C11_neq_to_lt_stable (P : Sem.PParams) (pre post : Prog) (l c : Nat) (X Y : String) (h : Head) (b : List BLit)
-    (hs : Symmetric P X Y h b) (T : Sem.Interp) :
+theorem C11_neq_to_lt_stable (P : Sem.PParams) (σ : String → String) (pre post : Prog) (l c : Nat) (X Y : String)
+    (h : Head) (b : List BLit) (hs : Symmetric P σ X Y h b) (T : Sem.Interp) :
     Sem.Stable P (pre ++ .rule l c h (b ++ [cmpBLit X .ne Y]) :: post) T ↔
       Sem.Stable P (pre ++ .rule l c h (b ++ [cmpBLit X .lt Y]) :: post) T :=
-  (neq_to_lt_strongEq P pre post l c X Y h b hs).stable P T
+  (neq_to_lt_strongEq P σ pre post l c X Y h b hs).stable P T
 
 open Proofs.C11sem in
-/-- under the standard head semantics the head condition of `Symmetric` holds as soon as the head mentions neither variable -/
-theorem C11_head_condition (P : Sem.Params) (X Y : String) (h : Head) (hX : X ∉ h.vars) (hY : Y ∉ h.vars)
+/-- under the standard head semantics the head condition of `Symmetric` holds as soon as `σ` fixes the variables of
+the head -/
+theorem C11_head_condition (P : Sem.Params) (σ : String → String) (h : Head) (hfix : ∀ v ∈ h.vars, σ v = v)
     (G : String → Prop) (e : Sem.Env) (H T : Sem.Interp) :
-    (Sem.stdParams P).headSat G (fun v => e (swap X Y v)) H T h ↔ (Sem.stdParams P).headSat G e H T h := by
+    (Sem.stdParams P).headSat G (fun v => e (σ v)) H T h ↔ (Sem.stdParams P).headSat G e H T h := by
   rw [Sem.stdParams_headSat]
   apply Sem.stdHeadSat_congr
   intro v hv
-  have h1 : v ≠ X := fun hh => hX (hh ▸ hv)
-  have h2 : v ≠ Y := fun hh => hY (hh ▸ hv)
-  simp [swap, h1, h2]
+  simp [hfix v hv]
 
-/-! non-vacuity: `f :- p(A,S), p(B,S), A != B.` satisfies the symmetry condition -/
+/-! non-vacuity: `f :- p(A,S), p(B,S), A != B.` satisfies the symmetry condition with the plain swap, and
+`f :- p(A), p(B), q(A,V), q(B,W), V != W, A != B.` with the double swap `A↔B, V↔W` -/
 section Example
 open Proofs.C11sem Sem
 private def pA : BLit := .lit (.pos, .sym (.fn "p" [.var "A", .var "S"] false))
 private def pB : BLit := .lit (.pos, .sym (.fn "p" [.var "B", .var "S"] false))
-example : ∀ l, l ∈ renameBody (swap "A" "B") [pA, pB] ↔ l ∈ [pA, pB] := by
-  intro l
-  simp [renameBody, renameBLit, renameLit, renameAtom, renameTerm, renameTerms, swap, pA, pB, or_comm]
-example (P : PParams) (hg : P.headGlobals (.lit (.pos, .sym (.fn "f" [] false))) = []) :
-    ∀ v, v ∈ ruleGlobals P (.lit (.pos, .sym (.fn "f" [] false))) ([pA, pB] ++ [cmpBLit "A" .ne "B"]) ↔
-      swap "A" "B" v ∈ ruleGlobals P (.lit (.pos, .sym (.fn "f" [] false))) ([pA, pB] ++ [cmpBLit "A" .ne "B"]) := by
-  intro v
-  simp only [ruleGlobals, hg, bodyGlobals, pA, pB, cmpBLit, blitGlobals, litVars, litTerms, Atom.terms, Term.vars,
-    List.nil_append, List.cons_append, List.flatMap_cons, List.flatMap_nil, List.append_nil, List.mem_cons, List.not_mem_nil,
-    or_false, swap]
-  by_cases h1 : v = "A" <;> by_cases h2 : v = "B" <;> by_cases h3 : v = "S" <;> simp_all
+example : ∀ l ∈ [pA, pB], renameBLit (swap "A" "B") l ∈ [pA, pB] ∨
+    ∃ U V, renameBLit (swap "A" "B") l = cmpBLit U .ne V ∧ cmpBLit V .ne U ∈ [pA, pB] := by
+  intro l hl
+  left
+  simp only [List.mem_cons, List.not_mem_nil, or_false] at hl
+  rcases hl with rfl | rfl <;>
+    simp [renameBLit, renameLit, renameAtom, renameTerm, renameTerms, swap, pA, pB]
+private def sw2 : String → String := fun v =>
+  if v = "A" then "B" else if v = "B" then "A" else if v = "V" then "W" else if v = "W" then "V" else v
+private def qAV : BLit := .lit (.pos, .sym (.fn "q" [.var "A", .var "V"] false))
+private def qBW : BLit := .lit (.pos, .sym (.fn "q" [.var "B", .var "W"] false))
+example : ∀ l ∈ [qAV, qBW, cmpBLit "V" .ne "W"], renameBLit sw2 l ∈ [qAV, qBW, cmpBLit "V" .ne "W"] ∨
+    ∃ U V, renameBLit sw2 l = cmpBLit U .ne V ∧ cmpBLit V .ne U ∈ [qAV, qBW, cmpBLit "V" .ne "W"] := by
+  intro l hl
+  simp only [List.mem_cons, List.not_mem_nil, or_false] at hl
+  rcases hl with rfl | rfl | rfl
+  · left; simp [renameBLit, renameLit, renameAtom, renameTerm, renameTerms, sw2, qAV, qBW]
+  · left; simp [renameBLit, renameLit, renameAtom, renameTerm, renameTerms, sw2, qAV, qBW]
+  · right; exact ⟨"W", "V", by simp [renameBLit, renameLit, renameAtom, renameTerm, renameGuards, renameGuard, sw2, cmpBLit], by simp⟩
 end Example
 
 end NgoVerif
